@@ -15,9 +15,10 @@ Property theorems only (helper lemmas live in `D3/Proofs/DistPoly*.lean`).  For 
 The model functions are the faithful ones of `D3/Model/DistPoly.lean` (same branch structure,
 checked divisions); `.ok` in the conclusion therefore also says that no division by zero
 can happen on well-formed input.  The line/plane family is in `D3/Properties/C10.lean`
-(colleague vertical).  `line_to_triangle` / `line_segment_to_triangle` are modelled and tied by
-correspondence but their optimality theorems are not proved (see `PARTIAL` in
-`harness/props/c11.py`).
+(colleague vertical).  `line_to_triangle` / `line_segment_to_triangle`: the conditional
+`line_segment_to_triangle_opt_partial` is below; `line_to_triangle_opt` and the unconditional
+`line_segment_to_triangle_opt` (outside the nearly-parallel tolerance band) are in
+`D3/Properties/C11LineTriangle.lean`.
 -/
 import D3.Proofs.DistPolyTriangle
 import D3.Proofs.DistPolyConvex
@@ -270,11 +271,12 @@ theorem pointToCircle_fixed_on_witness :
 
 /-! ### line_segment_to_triangle (partial: conditional on `_line_to_triangle`) -/
 
-/- Full statement (not proved): for a triangle of non-zero area, `s ≠ e`, default epsilon,
+/- Full statement: for a triangle of non-zero area, `s ≠ e`, default epsilon,
    `lineSegmentToTriangle s e a b c` returns `.ok res` with `res.cpLine` on the segment,
    `res.cpPrim` in the triangle, `res.dist² = |cpLine − cpPrim|²` and no pair (segment point,
-   triangle point) closer than `res.dist`.  Missing: the same statement for `_line_to_triangle`
-   (plane-basis intersection test + "a line that misses the triangle is closest to an edge"). -/
+   triangle point) closer than `res.dist`.  Proved in `D3/Properties/C11LineTriangle.lean`
+   (`line_segment_to_triangle_opt`, from `line_to_triangle_opt` and the theorem below) outside
+   the tolerance band of `_line_to_triangle`. -/
 
 /-- **C11, `line_segment_to_triangle`, partial.** Whenever `_line_to_triangle` on the carrier line
 (unit direction computed by `convert_segment_to_line`) returns a result `r` that is feasible
